@@ -7,5 +7,5 @@ for p in $props; do
   out=$(./check $p thorough 2>&1); rc=$?
   echo "$p thorough rc=$rc $(( $(date +%s) - t0 ))s $(echo "$out" | grep -c '^VIOLATION') violation lines; $(echo "$out" | tail -1 | cut -c1-130)"
   if [ $rc -ne 0 ]; then echo "$out" | grep -A1 '^VIOLATION' | head -8; echo "$out" | grep -i "inconclusive" | head -3; fi
-  mkdir -p /verif/.build/evidence-thorough && cp /verif/evidence/$p.json /verif/.build/evidence-thorough/$p.json
+  [ -z "$VERIF_REPO" ] && mkdir -p /verif/.build/evidence-thorough && cp /verif/evidence/$p.json /verif/.build/evidence-thorough/$p.json
 done
